@@ -1345,6 +1345,9 @@ func areEqualValTuple(query sqlparser.ValTuple, pattern sqlparser.ValTuple) bool
 	if query == nil || pattern == nil {
 		return false
 	}
+	if len(pattern) == 0 {
+		return len(query) == 0
+	}
 	for index := range pattern {
 		if index >= len(query) {
 			return false
